@@ -250,6 +250,30 @@ def l1_limit_rules(F, r):
         r.fail("check_shift_limits: coverage", f"only {sorted(found)} of distance / duration / size limits are compared", F.loc(root))
 
 
+def k1_tour_identity(F, r):
+    """a tour is identified by (vehicle id, shift index): the `job split over tours` rule compares both, so a job served on two shifts of one vehicle is a breach"""
+    from . import c01
+    root = CHK + "::assignment::check_jobs_presence"
+    if root not in F.fns:
+        raise AnchorError(root)
+    hits = 0
+    for g in F.family(root):
+        fn = F.fns[g]
+        for bi, t in mir.calls(fn):
+            if t["callee"] not in ("core::cmp::PartialEq::ne", "core::cmp::PartialEq::eq") or len(t["args"]) != 2:
+                continue
+            ta, tb = c01._toks(fn, t["args"][0]), c01._toks(fn, t["args"][1])
+            if "vehicle_id" not in (ta | tb):
+                continue
+            hits += 1
+            if "shift_index" in ta and "shift_index" in tb:
+                r.ok("check_jobs_presence: tour identity", "assignments are compared by (vehicle_id, shift_index)")
+            else:
+                r.fail("check_jobs_presence: tour identity", "tours are told apart by the vehicle id alone: a job split over two shifts of the same vehicle is accepted", F.loc(g, t["ln"]))
+    if not hits:
+        r.fail("check_jobs_presence: tour identity", "the tour a job was first seen in is no longer compared with the current tour", F.loc(root))
+
+
 def run(ctx):
     ctx.explanation = (
         "Structural clauses of `the checker rejects injected breaches`: every rule function of the checker (return type Result<(), GenericError|Vec<..>>) is "
@@ -266,6 +290,7 @@ def run(ctx):
         ctx.run("C01-O3", "can_fit(capacity, load) iff load <= capacity in every dimension", c01.o3_can_fit_law, floor=7)
     except (ImportError, AttributeError):
         pass
+    ctx.run("C12-K1", "a tour is identified by (vehicle id, shift index) in the job-presence rule", k1_tour_identity, floor=1)
     ctx.run("C12-L1", "limit rules: breach iff the tour's own distance / duration / activity count exceeds the limit", l1_limit_rules, floor=1)
     ctx.run("C12-Q1", "no checker comparison relates a value to itself (a constant verdict)", q1_no_self_comparison, floor=1)
     ctx.run("C12-A3", "every leaf rule can fail: its error-producing sites are reachable", a3_rules_can_fail, floor=10)
